@@ -128,13 +128,15 @@ Proof.
   destruct (Req_EM_T rs 0) as [E1|E1], (Req_EM_T ri 0) as [E2|E2]; cbn [orb];
     repeat (destruct (bool_dec _ true) as [F|F]; try discriminate F; try (exfalso; apply F; reflexivity));
     repeat split; try reflexivity; try (field; split; [assumption|lra]).
-  replace (k * rs * (k * ri) * 1 * 1) with (Rsqr k * (rs * ri * 1 * 1)) by (unfold Rsqr; ring).
-  rewrite sqrt_mult_alt by apply Rle_0_sqr. rewrite sqrt_Rsqr by lra.
-  assert (Hs : sqrt (rs * ri * 1 * 1) <> 0).
-  { intros H0. apply sqrt_eq_0 in H0.
-    - assert (rs * ri = 0) by lra. apply Rmult_integral in H. tauto.
-    - assert (0 <= rs * ri) by (apply Rmult_le_pos; assumption). lra. }
-  field. split; [exact Hs|lra].
+  replace (k * rs * 1) with (k * rs) by ring. replace (k * ri * 1) with (k * ri) by ring.
+  replace (rs * 1) with rs by ring. replace (ri * 1) with ri by ring.
+  rewrite (sqrt_mult_alt k rs) by lra. rewrite (sqrt_mult_alt k ri) by lra.
+  assert (Hk' : 0 < sqrt k) by (apply sqrt_lt_R0; assumption).
+  assert (Hs1 : 0 < sqrt rs) by (apply sqrt_lt_R0; lra). assert (Hs2 : 0 < sqrt ri) by (apply sqrt_lt_R0; lra).
+  replace (sqrt k * sqrt rs * (sqrt k * sqrt ri)) with (k * (sqrt rs * sqrt ri)).
+  2:{ replace (sqrt k * sqrt rs * (sqrt k * sqrt ri)) with ((sqrt k * sqrt k) * (sqrt rs * sqrt ri)) by ring.
+      rewrite sqrt_sqrt by lra. reflexivity. }
+  field. repeat split; lra.
 Qed.
 
 (* efficiencies of a setup do not depend on power / deff (all three rates scale by the same positive factor) *)
